@@ -1,6 +1,7 @@
 //! C09 - Builder output conforms to the documented version-3 on-disk format.
 //! Oracle: the harness' independent decoder (refdec) + reference CRC; the crate's reader is not involved.
 use crate::build::{self, Front, GEOMS, MAP_FRONTS, SET_FRONTS};
+use crate::json::J;
 use crate::ctx::{finish, guard, Ctx, Ev, Spec};
 use crate::gen::{self, Case};
 use crate::refdec;
@@ -124,14 +125,37 @@ pub fn run(ctx: &Ctx) -> i32 {
     });
     let mut ev = ev;
     ev.merge(ev2);
+    // files written in history scenarios (long series of builds on one thread, builders migrating between threads)
+    {
+        let mut bad = 0;
+        for (label, kv, res) in build::history_builds(ctx.seed, ctx.tier.pick(6, 32), ctx.tier.pick(1200, 5000), ctx.tier.pick(300, 3000)) {
+            ev.eval(None);
+            ev.distinct_extra += 1;
+            ev.count("files-from-history-scenarios");
+            let verdict = match res {
+                Ok(bytes) => match guard(|| refdec::validate_v3(&bytes, 0, &kv).map(|_| ())) {
+                    Ok(r) => r.map_err(|e| format!("file of {} bytes is not a well-formed v3 FST holding the inserted map: {}", bytes.len(), e)),
+                    Err(p) => Err(format!("independent decoder panicked: {}", p)),
+                },
+                Err(e) => Err(format!("build failed: {}", e)),
+            };
+            if let Err(e) = verdict {
+                if bad < 3 {
+                    ev.violate("format", format!("{}: {}", label, e), J::A(kv.iter().map(|(k, v)| J::A(vec![J::bytes(k), J::U(*v)])).collect()));
+                }
+                bad += 1;
+            }
+        }
+    }
     let mut floors = build::structural_floors(ctx.tier == crate::ctx::Tier::Thorough);
     floors.push(("files-from-builders-with-rejected-calls", 10_000));
+    floors.push(("files-from-history-scenarios", 5000));
     finish(
         ctx,
         ev,
         Spec {
             level: "exploration",
-            rule: "one evaluation = one built file decoded by the independent format decoder: header (version 3, type), footer (count, root, masked CRC-32C by the bit-wise reference), every reachable node parsed under the documented layouts, transitions point strictly backwards or to the sentinel, node extents tile [16, footer) exactly, root is last, decoded map == inserted map; same case pool as C01, plus the files finished by Map/Set builders after ALL call sequences of length <=5 (thorough <=6) over 6 keys, i.e. with rejected calls in between (must encode exactly the accepted history); non-trivial = at least one key; distinct = distinct (content, front end)",
+            rule: "(also decoded: every file written in history scenarios - series of 1200 small builds on one thread with abandoned builders in between, and half-filled builders migrating to fresh threads that go on building) one evaluation = one built file decoded by the independent format decoder: header (version 3, type), footer (count, root, masked CRC-32C by the bit-wise reference), every reachable node parsed under the documented layouts, transitions point strictly backwards or to the sentinel, node extents tile [16, footer) exactly, root is last, decoded map == inserted map; same case pool as C01, plus the files finished by Map/Set builders after ALL call sequences of length <=5 (thorough <=6) over 6 keys, i.e. with rejected calls in between (must encode exactly the accepted history); non-trivial = at least one key; distinct = distinct (content, front end)",
             assumptions: vec![
                 "the 63-entry common-input table is format data pinned from the pinned revision".into(),
                 "compactness choices (minimal widths, preferred node forms) are encoder policy: recorded, not judged".into(),
